@@ -189,9 +189,12 @@ pub fn instances(boundary: bool) -> Vec<(&'static str, Vec<u8>)> {
     for &v in f64s {
         t.push(("f64", v.to_le_bytes().to_vec()));
     }
+    // sixteen different bytes first, then one with the top bit of the low half set (and an upper half
+    // that is neither zero nor all ones), then the uniform ones
+    t.push(("v128", (0..16u8).map(|x| x.wrapping_mul(17).wrapping_add(1)).collect()));
+    t.push(("v128", vec![0, 0, 0, 0, 0, 0, 0, 0x80, 1, 2, 3, 4, 5, 6, 7, 0x48]));
     t.push(("v128", vec![0; 16]));
     t.push(("v128", vec![0xff; 16]));
-    t.push(("v128", (0..16u8).map(|x| x.wrapping_mul(17).wrapping_add(1)).collect()));
     // block types + end / else end
     for bt in [vec![0x40u8], vec![0x7f], vec![0x6f], vec![0x01], vec![0x02], vec![0x03], vec![0x04]] {
         let mut a = bt.clone();
